@@ -334,4 +334,364 @@ theorem autoLabels_same_connected (n : Nat) (instrs : List Instr) (ignore : Inst
   rw [this] at cx
   exact cx.trans cy.symm
 
+
+/-! ## completeness of the components: `n` sweeps reach a stable table -/
+
+/-- number of component ids in use (fixed points of the table) -/
+def rootsCount (n : Nat) (comp : List Nat) : Nat := (List.range n).countP (fun x => cf comp x == x)
+
+theorem countP_lt_of {α : Type} (p p' : α → Bool) : ∀ (l : List α), (∀ x ∈ l, p' x = true → p x = true) →
+    (∃ a ∈ l, p a = true ∧ p' a = false) → l.countP p' < l.countP p := by
+  intro l
+  induction l with
+  | nil => intro _ ⟨a, ha, _⟩; cases ha
+  | cons x l ih =>
+    intro himp ⟨a, ha, hpa, hpa'⟩
+    have hle : l.countP p' ≤ l.countP p := by
+      apply List.countP_mono_left
+      intro y hy h; exact himp y (List.mem_cons_of_mem _ hy) h
+    simp only [List.countP_cons]
+    rcases List.mem_cons.1 ha with rfl | hal
+    · simp [hpa, hpa']; omega
+    · have := ih (fun y hy => himp y (List.mem_cons_of_mem _ hy)) ⟨a, hal, hpa, hpa'⟩
+      by_cases h1 : p' x = true
+      · have := himp x (by simp) h1
+        simp [h1, this]; omega
+      · by_cases h2 : p x = true <;> simp [h1, h2] <;> omega
+
+/-- a step either leaves the table as it is or merges at least two components -/
+theorem step_count (n : Nat) (T : List Nat) (comp qs : List Nat) (hg : GoodComp n T comp) (hq : ∀ q ∈ qs, q < n ∧ q ∈ T) :
+    sweepStep comp qs = comp ∨ rootsCount n (sweepStep comp qs) < rootsCount n comp := by
+  unfold sweepStep
+  simp only
+  cases hm : (qs.map (fun q => comp.getD q q)).min? with
+  | none => exact Or.inl rfl
+  | some m =>
+    simp only
+    set ids := qs.map (fun q => comp.getD q q) with hids
+    have hmem : m ∈ ids := List.min?_mem hm
+    have hids_lt : ∀ c ∈ ids, c < n := by
+      intro c hc
+      obtain ⟨q, hq', rfl⟩ := List.mem_map.1 hc
+      exact hg.rng q (hq q hq').1
+    have hids_root : ∀ c ∈ ids, cf comp c = c := by
+      intro c hc
+      obtain ⟨q, hq', rfl⟩ := List.mem_map.1 hc
+      exact hg.idem q (hq q hq').1
+    have hcf : ∀ x, x < n → cf (comp.map fun c => if ids.contains c then m else c) x = if ids.contains (cf comp x) then m else cf comp x :=
+      fun x hx => cf_map comp _ x (by rw [hg.len]; exact hx)
+    by_cases hall : ∀ c ∈ ids, c = m
+    · left
+      apply List.ext_getElem
+      · simp
+      · intro i h1 h2
+        simp only [List.getElem_map]
+        split
+        · rename_i hc
+          exact (hall _ (by simpa using hc)).symm
+        · rfl
+    · right
+      simp only [not_forall] at hall
+      obtain ⟨c, hc', hcm⟩ := hall
+      have hc := hc'
+      unfold rootsCount
+      apply countP_lt_of
+      · intro x hx h
+        have hx' := List.mem_range.1 hx
+        simp only [beq_iff_eq] at h ⊢
+        rw [hcf x hx'] at h
+        by_cases hcx : ids.contains (cf comp x) = true
+        · simp only [hcx, if_true] at h
+          rw [← h]; exact hids_root m hmem
+        · have : ids.contains (cf comp x) = false := by simpa using hcx
+          simp only [this, Bool.false_eq_true, if_false] at h
+          exact h
+      · refine ⟨c, List.mem_range.2 (hids_lt c hc), by simpa using hids_root c hc, ?_⟩
+        have hcc : ids.contains (cf comp c) = true := by rw [hids_root c hc]; simpa using hc
+        simp only [beq_eq_false_iff_ne, ne_eq]
+        rw [hcf c (hids_lt c hc), hcc]
+        simp only [if_true]
+        exact fun e => hcm e.symm
+
+/-- the table is stable: no instruction changes it any more -/
+def Stable (instrs : List (List Nat)) (comp : List Nat) : Prop := ∀ qs ∈ instrs, sweepStep comp qs = comp
+
+theorem sweep_stable (instrs : List (List Nat)) (comp : List Nat) (h : Stable instrs comp) : sweep instrs comp = comp := by
+  rw [sweep_eq]
+  have gen : ∀ (l : List (List Nat)), (∀ qs ∈ l, sweepStep comp qs = comp) → l.foldl sweepStep comp = comp := by
+    intro l
+    induction l with
+    | nil => intro _; rfl
+    | cons qs l ih =>
+      intro hl
+      rw [List.foldl_cons, hl qs (by simp)]
+      exact ih (fun qs' hq' => hl qs' (List.mem_cons_of_mem _ hq'))
+  exact gen instrs h
+
+/-- one sweep: the number of components never grows, and it shrinks unless the table was already stable -/
+theorem sweep_count (n : Nat) (T : List Nat) (all : List (List Nat)) (hall : ∀ qs ∈ all, ∀ q ∈ qs, q < n ∧ q ∈ T) :
+    ∀ (instrs : List (List Nat)) (comp : List Nat), GoodComp n T comp → (∀ qs ∈ instrs, qs ∈ all) →
+      rootsCount n (sweep instrs comp) ≤ rootsCount n comp ∧
+      ((∀ qs ∈ instrs, sweepStep comp qs = comp) ∨ rootsCount n (sweep instrs comp) < rootsCount n comp) := by
+  intro instrs
+  induction instrs with
+  | nil => intro comp _ _; exact ⟨le_refl _, Or.inl (fun qs h => by cases h)⟩
+  | cons qs rest ih =>
+    intro comp hg hsub
+    have hqs := hall qs (hsub qs (by simp))
+    have hg' := good_step n T comp qs hg hqs
+    have hrest : ∀ qs' ∈ rest, qs' ∈ all := fun qs' h => hsub qs' (List.mem_cons_of_mem _ h)
+    obtain ⟨hle, hor⟩ := ih (sweepStep comp qs) hg' hrest
+    rw [sweep_eq, List.foldl_cons, ← sweep_eq]
+    rcases step_count n T comp qs hg hqs with hsame | hlt
+    · rw [hsame] at hle hor ⊢
+      refine ⟨hle, ?_⟩
+      rcases hor with hs | hl
+      · left
+        intro qs' hq'
+        rcases List.mem_cons.1 hq' with rfl | hq'
+        · exact hsame
+        · exact hs qs' hq'
+      · exact Or.inr hl
+    · exact ⟨le_trans hle (le_of_lt hlt), Or.inr (lt_of_le_of_lt hle hlt)⟩
+
+/-- after `n` sweeps the table is stable -/
+theorem components_stable (n : Nat) (T : List Nat) (instrs : List (List Nat))
+    (h : ∀ qs ∈ instrs, ∀ q ∈ qs, q < n ∧ q ∈ T) : Stable instrs (components n instrs) := by
+  unfold components
+  have gen : ∀ (k : Nat) (l : List Nat), l.length = k →
+      GoodComp n T (l.foldl (fun comp _ => sweep instrs comp) (List.range n)) ∧
+      (Stable instrs (l.foldl (fun comp _ => sweep instrs comp) (List.range n)) ∨
+        rootsCount n (l.foldl (fun comp _ => sweep instrs comp) (List.range n)) + k ≤ n) := by
+    intro k
+    induction k with
+    | zero =>
+      intro l hl
+      have : l = [] := List.length_eq_zero_iff.1 hl
+      subst this
+      refine ⟨good_init n T, Or.inr ?_⟩
+      simp only [List.foldl_nil, rootsCount, Nat.add_zero]
+      exact le_trans (List.countP_le_length) (by simp)
+    | succ k ih =>
+      intro l hl
+      obtain ⟨l', a, rfl⟩ : ∃ l' a, l = l' ++ [a] := by
+        rcases List.eq_nil_or_concat l with rfl | ⟨l', a, rfl⟩
+        · simp at hl
+        · exact ⟨l', a, by simp⟩
+      have hl' : l'.length = k := by simpa using hl
+      obtain ⟨hg, hor⟩ := ih l' hl'
+      rw [List.foldl_append]
+      simp only [List.foldl_cons, List.foldl_nil]
+      set c := l'.foldl (fun comp _ => sweep instrs comp) (List.range n) with hc
+      have hg' := good_sweep n T instrs c hg h
+      refine ⟨hg', ?_⟩
+      rcases hor with hs | hcnt
+      · left; rw [sweep_stable instrs c hs]; exact hs
+      · obtain ⟨hle, hor2⟩ := sweep_count n T instrs h instrs c hg (fun qs hq => hq)
+        rcases hor2 with hs | hlt
+        · left; rw [sweep_stable instrs c hs]; exact hs
+        · right; omega
+  obtain ⟨hg, hor⟩ := gen n (List.range n) (by simp)
+  rcases hor with hs | hcnt
+  · exact hs
+  · -- no component left: impossible unless there is no qubit at all
+    by_cases hn : n = 0
+    · subst hn
+      intro qs hqs
+      have hempty : qs = [] := by
+        cases qs with
+        | nil => rfl
+        | cons q _ => exact absurd (h _ hqs q (by simp)).1 (by omega)
+      subst hempty
+      simp [sweepStep]
+    · exfalso
+      have h0 : 0 < n := Nat.pos_of_ne_zero hn
+      set c := (List.range n).foldl (fun comp _ => sweep instrs comp) (List.range n) with hc
+      have hroot : cf c (cf c 0) = cf c 0 := hg.idem 0 h0
+      have hlt : cf c 0 < n := hg.rng 0 h0
+      have : 0 < rootsCount n c := by
+        unfold rootsCount
+        rw [List.countP_pos_iff]
+        exact ⟨cf c 0, List.mem_range.2 hlt, by simpa using hroot⟩
+      omega
+
+theorem stable_ids (n : Nat) (T : List Nat) (comp qs : List Nat) (hg : GoodComp n T comp) (hq : ∀ q ∈ qs, q < n ∧ q ∈ T)
+    (hs : sweepStep comp qs = comp) : ∀ a ∈ qs, ∀ b ∈ qs, cf comp a = cf comp b := by
+  unfold sweepStep at hs
+  simp only at hs
+  cases hm : (qs.map (fun q => comp.getD q q)).min? with
+  | none =>
+    intro a ha
+    have : qs.map (fun q => comp.getD q q) = [] := by simpa using hm
+    have : qs = [] := by simpa using this
+    subst this; cases ha
+  | some m =>
+    rw [hm] at hs
+    simp only at hs
+    have key : ∀ a ∈ qs, cf comp a = m := by
+      intro a ha
+      by_contra hne
+      have halt : cf comp a < n := hg.rng a (hq a ha).1
+      have hroot : cf comp (cf comp a) = cf comp a := hg.idem a (hq a ha).1
+      have hlen : cf comp a < comp.length := by rw [hg.len]; exact halt
+      have h1 : cf (comp.map fun c => if (qs.map (fun q => comp.getD q q)).contains c then m else c) (cf comp a) = cf comp (cf comp a) :=
+        congrArg (fun l => cf l (cf comp a)) hs
+      rw [cf_map comp _ _ hlen, hroot] at h1
+      have hc : (qs.map (fun q => comp.getD q q)).contains (cf comp a) = true := by
+        simp only [List.contains_eq_mem, List.mem_map, decide_eq_true_eq]
+        exact ⟨a, ha, rfl⟩
+      simp only [hc, if_true] at h1
+      exact hne h1.symm
+    intro a ha b hb
+    rw [key a ha, key b hb]
+
+theorem conn_same_id (n : Nat) (T : List Nat) (instrs : List (List Nat)) (comp : List Nat) (hg : GoodComp n T comp)
+    (h : ∀ qs ∈ instrs, ∀ q ∈ qs, q < n ∧ q ∈ T) (hs : Stable instrs comp) :
+    ∀ a b, Conn instrs a b → cf comp a = cf comp b := by
+  intro a b hc
+  induction hc with
+  | refl x => rfl
+  | edge qs a b hqs ha hb => exact stable_ids n T comp qs hg (h qs hqs) (hs qs hqs) a ha b hb
+  | symm _ ih => exact ih.symm
+  | trans _ _ ih1 ih2 => exact ih1.trans ih2
+
+/-- **T10.3 (completeness of the components)** qubits connected through the non-ignored instructions get the same automatic label -/
+theorem autoLabels_connected_same (n : Nat) (instrs : List Instr) (ignore : Instr → Bool)
+    (hrange : ∀ i ∈ instrs, ∀ q ∈ i.qubits, q < n) (x y : Nat) (hx : x < n) (hy : y < n)
+    (hc : Conn ((instrs.filter (fun i => !ignore i)).map (·.qubits)) x y) :
+    (autoLabels n instrs ignore).getD x none = (autoLabels n instrs ignore).getD y none := by
+  set cinstrs := (instrs.filter (fun i => !ignore i)).map (·.qubits) with hci
+  set T : List Nat := (instrs.map (·.qubits)).flatten with hT
+  have hin : ∀ qs ∈ cinstrs, ∀ q ∈ qs, q < n ∧ q ∈ T := by
+    intro qs hqs q hq
+    obtain ⟨i, hi, rfl⟩ := List.mem_map.1 hqs
+    have hi' := (List.mem_filter.1 hi).1
+    exact ⟨hrange i hi' q hq, by simp only [hT, List.mem_flatten, List.mem_map]; exact ⟨i.qubits, ⟨i, hi', rfl⟩, hq⟩⟩
+  have hg := good_components n T cinstrs hin
+  have hs := components_stable n T cinstrs hin
+  have heq := conn_same_id n T cinstrs _ hg hin hs x y hc
+  have hlab : ∀ z, z < n → (autoLabels n instrs ignore).getD z none =
+      (match ((List.range n).filter fun r =>
+          (components n cinstrs).getD r r == r && !(((List.range n).filter (fun y => (components n cinstrs).getD y y == r)).length == 1 &&
+            !T.contains r)).idxOf? ((components n cinstrs).getD z z) with | some k => some k | none => none) := by
+    intro z hz
+    unfold autoLabels
+    simp only [List.getD_eq_getElem?_getD, List.getElem?_map, List.getElem?_range hz, Option.map_some, Option.getD_some]
+    rfl
+  rw [hlab x hx, hlab y hy]
+  have : (components n cinstrs).getD x x = (components n cinstrs).getD y y := heq
+  rw [this]
+
+/-! ## automatic separation never refuses -/
+
+theorem mem_splitBarriersGo : ∀ (l : List Instr) (k : Nat) (i : Instr), i ∈ splitBarriersGo l k →
+    (i ∈ l ∧ ¬ (isBarrier i = true ∧ i.qubits.length ≠ 1)) ∨ (∃ b ∈ l, ∃ q ∈ b.qubits, i.qubits = [q]) := by
+  intro l
+  induction l with
+  | nil => intro k i h; cases h
+  | cons x rest ih =>
+    intro k i h
+    simp only [splitBarriersGo] at h
+    split at h
+    · rcases List.mem_append.1 h with h | h
+      · obtain ⟨q, hq, rfl⟩ := List.mem_map.1 h
+        exact Or.inr ⟨x, by simp, q, hq, rfl⟩
+      · rcases ih _ i h with ⟨h1, h2⟩ | ⟨b, hb, q, hq, e⟩
+        · exact Or.inl ⟨List.mem_cons_of_mem _ h1, h2⟩
+        · exact Or.inr ⟨b, List.mem_cons_of_mem _ hb, q, hq, e⟩
+    · rename_i hx
+      rcases List.mem_cons.1 h with rfl | h
+      · refine Or.inl ⟨by simp, ?_⟩
+        simpa using hx
+      · rcases ih _ i h with ⟨h1, h2⟩ | ⟨b, hb, q, hq, e⟩
+        · exact Or.inl ⟨List.mem_cons_of_mem _ h1, h2⟩
+        · exact Or.inr ⟨b, List.mem_cons_of_mem _ hb, q, hq, e⟩
+
+theorem uniq_all_eq {α : Type} [DecidableEq α] (a : α) : ∀ (l : List α), l ≠ [] → (∀ x ∈ l, x = a) → uniq l = [a] := by
+  intro l
+  induction l with
+  | nil => intro h; exact absurd rfl h
+  | cons x l ih =>
+    intro _ hall
+    have hx : x = a := hall x (by simp)
+    subst hx
+    simp only [uniq]
+    by_cases hl : l = []
+    · subst hl; simp [uniq]
+    · rw [ih hl (fun y hy => hall y (List.mem_cons_of_mem _ hy))]
+      simp
+
+theorem checkAllLabels_of_all (labels : List Label) : ∀ (l : List Instr), (∀ i ∈ l, ∃ lab, instrLabel labels i = .ok lab) →
+    checkAllLabels labels l = .ok () := by
+  intro l
+  induction l with
+  | nil => intro _; rfl
+  | cons x rest ih =>
+    intro h
+    obtain ⟨lab, hlab⟩ := h x (by simp)
+    simp only [checkAllLabels, hlab]
+    exact ih (fun i hi => h i (List.mem_cons_of_mem _ hi))
+
+/-- **T10.3 (no spurious refusal)** with automatic labels `separate_circuit` always succeeds (qubit arguments in range; every
+instruction other than a barrier acts on at least one qubit) -/
+theorem separate_auto_ok (c : Circuit) (hr : ∀ i ∈ c.instrs, ∀ q ∈ i.qubits, q < c.nq)
+    (hne : ∀ i ∈ c.instrs, isBarrier i = false → i.qubits ≠ []) : ∃ s, separateCircuit c none = .ok s := by
+  set split := splitBarriers c.instrs with hsplit
+  have hmem := fun i (hi : i ∈ split) => mem_splitBarriersGo c.instrs 0 i hi
+  have hrs : ∀ i ∈ split, ∀ q ∈ i.qubits, q < c.nq := by
+    intro i hi q hq
+    rcases hmem i hi with ⟨h1, _⟩ | ⟨b, hb, q', hq', e⟩
+    · exact hr i h1 q hq
+    · rw [e] at hq; simp at hq; rw [hq]; exact hr b hb q' hq'
+  have hnes : ∀ i ∈ split, i.qubits ≠ [] := by
+    intro i hi
+    rcases hmem i hi with ⟨h1, h2⟩ | ⟨b, hb, q', hq', e⟩
+    · by_cases hb : isBarrier i = true
+      · intro he
+        apply h2
+        exact ⟨hb, by rw [he]; simp⟩
+      · exact hne i h1 (by simpa using hb)
+    · rw [e]; simp
+  set labels := autoLabels c.nq split (fun _ => false) with hlabels
+  have hlen : labels.length = c.nq := by simp [hlabels, autoLabels]
+  have hfilter : (split.filter (fun i => !(fun _ => false) i)) = split := by simp
+  have hall : ∀ i ∈ split, ∃ lab, instrLabel labels i = .ok lab := by
+    intro i hi
+    -- label of the first qubit
+    obtain ⟨q0, hq0⟩ : ∃ q0, q0 ∈ i.qubits := List.exists_mem_of_ne_nil _ (hnes i hi)
+    have hsome : ∀ q ∈ i.qubits, labels.getD q none ≠ none := by
+      intro q hq hnone
+      have := (autoLabels_none_iff c.nq split (fun _ => false) hrs q (hrs i hi q hq)).1 hnone
+      exact this i hi hq
+    have hsame : ∀ q ∈ i.qubits, labels.getD q none = labels.getD q0 none := by
+      intro q hq
+      apply autoLabels_connected_same c.nq split (fun _ => false) hrs q q0 (hrs i hi q hq) (hrs i hi q0 hq0)
+      rw [hfilter]
+      exact Conn.edge i.qubits q q0 (List.mem_map.2 ⟨i, hi, rfl⟩) hq hq0
+    cases hl0 : labels.getD q0 none with
+    | none => exact absurd hl0 (hsome q0 hq0)
+    | some l0 =>
+      refine ⟨l0, ?_⟩
+      unfold instrLabel
+      have hany : (i.qubits.any fun q => (labels.getD q none).isNone) = false := by
+        rw [List.any_eq_false]
+        intro q hq
+        rw [hsame q hq, hl0]; simp
+      simp only [hany, Bool.false_eq_true, if_false]
+      have hfm : i.qubits.filterMap (fun q => labels.getD q none) ≠ [] ∧
+          ∀ x ∈ i.qubits.filterMap (fun q => labels.getD q none), x = l0 := by
+        constructor
+        · intro he
+          have : l0 ∈ i.qubits.filterMap (fun q => labels.getD q none) := List.mem_filterMap.2 ⟨q0, hq0, hl0⟩
+          rw [he] at this; cases this
+        · intro x hx
+          obtain ⟨q, hq, e⟩ := List.mem_filterMap.1 hx
+          rw [hsame q hq, hl0] at e
+          injection e with e; exact e.symm
+      rw [uniq_all_eq l0 _ hfm.1 hfm.2]
+  have hcheck := checkAllLabels_of_all labels split hall
+  unfold separateCircuit
+  simp only [← hsplit, ← hlabels, hlen, bne_self_eq_false, Bool.false_eq_true, if_false, hcheck]
+  exact ⟨_, rfl⟩
+
 end CKT.C10
